@@ -156,7 +156,7 @@ def build(cfg, kind="shim", sources=None, out=None, link=(), cflags=(), tables=T
         lock.close()
 
 
-def gc_builds(keep=40):
+def gc_builds(keep=160):
     """Drop the oldest build directories so the cache stays bounded."""
     if not os.path.isdir(BUILD):
         return
